@@ -233,7 +233,9 @@ def containsVal (container item : Val) : Bool :=
   | .smap _ kvs => (match item with | .str k => (kvs.lookup k).isSome | _ => false)
   | .imap _ kvs => (match item with | .int k => (kvs.lookup k).isSome | _ => false)
   | .str s => Bytes.contains s item.toS
-  | .list _ xs | .arr _ xs => xs.any fun x => equalValueTo item x
+  | .list _ xs | .arr _ xs => xs.any fun x =>
+      -- the items of an in-template list literal are `*Value` already and are compared as they are
+      equalValueTo item (match x with | .boxed inner s => (Val.unboxAll inner s).1 | _ => x)
   | _ => false
 
 def mkV (v : Val) : V := ⟨v, false⟩
